@@ -1,24 +1,70 @@
 ----------------------------- MODULE NoopTrace -----------------------------
 (***************************************************************************)
-(* C05, the part that needs no evaluator: a text that is rejected before   *)
-(* any of it runs -- a parse error, a compile error in a nested form, an   *)
-(* error while a macro is expanded, a jump outside a loop -- is a          *)
-(* stuttering step of the interpreter.  The state a program can observe    *)
-(* (variables, functions, macros, declared types, packages, the contents   *)
-(* of values) is what it was.                                              *)
+(* C05, the part that needs no evaluator: a text that fails before any of  *)
+(* it has taken effect is a stuttering step of the interpreter.  The state *)
+(* a program can observe (variables, functions, macros, declared types,    *)
+(* packages, the contents of values) is what it was.                       *)
 (*                                                                         *)
 (* The interpreter is modelled by what later evaluations can see of it:    *)
 (*   obs     the answers it gives to a fixed list of probes                *)
 (* and two actions: Setup (defines names; obs becomes whatever the twin    *)
 (* interpreter, which only ran the set-up, answers) and Rejected(text),    *)
-(* which must leave obs unchanged, return an error and leave the four VM   *)
-(* stacks at rest.  A case records both interpreters; TLC replays it.      *)
+(* which must leave obs unchanged, return an error -- returned, not a Go   *)
+(* panic out of the entry point -- leave the four VM stacks at rest, and   *)
+(* leave the interpreter usable.  A case records both interpreters; TLC    *)
+(* replays it.                                                             *)
+(*                                                                         *)
+(* Which texts must be rejected is said HERE, by the class of the variant  *)
+(* (the harness only builds the texts):                                    *)
+(*   MustFail  the text contains a form that is ill-formed in every        *)
+(*             reading, in a position where it is evaluated -- at top      *)
+(*             level, nested in begin / a function body / a call argument /*)
+(*             eval / a forced lazy argument / a sourced or included file /*)
+(*             an array literal, or as the operand of an unquote inside a  *)
+(*             syntax-quote template (well-formedness does not depend on   *)
+(*             the nesting) -- or a parse error, an expansion error, a     *)
+(*             jump outside a loop; or the (re)definition itself fails in  *)
+(*             the middle: its value expression calls a host function that *)
+(*             fails (script error or Go panic; also a host macro, and also *)
+(*             when the evaluation is entered through the host's Apply),   *)
+(*             or the binding is refused                                   *)
+(*             (a string for a name that holds an int64: def refuses it,   *)
+(*             so does every other form that binds like def).              *)
+(*             "Errors are never swallowed into a successful result."      *)
+(*   MayFail   a special form whose operand is an improper list, or a form *)
+(*             that generates no value where a value is needed below a     *)
+(*             value of the caller.  The language may give these a meaning *)
+(*             (then the case says nothing about failures: skip); it may   *)
+(*             not panic, and when it reports an error the step stutters.  *)
+(*             These texts are a valid re-definition followed by the form: *)
+(*             the form is refused either when the text is compiled (then  *)
+(*             nothing ran: the twin) or when it is executed (then the     *)
+(*             re-definition before it ran, all of it: twin2).  Any third  *)
+(*             state is a partial effect.                                  *)
 (***************************************************************************)
 EXTENDS Integers, Sequences, Json, IOUtils, TLC
 
 ASSUME TLCSet(11, ndJsonDeserialize(IOEnv.VERIF_TRACE))
 Cases == TLCGet(11)
 Rest == <<0, 1, 0, 0>>
+(* the answer to the usability text (defn zvu [x] (+ x 1)) (zvu 41) *)
+UsableAnswer == <<"val", "42">>
+
+Numbered(p, n) == {p \o ToString(i) : i \in 0..n}
+Two(i) == (IF i < 10 THEN "0" ELSE "") \o ToString(i)
+
+MustFailV ==
+    {"then-compile-error", "then-parse-error", "then-unbalanced", "after-compile-error",
+     "then-expansion-error", "then-bad-jump", "inside-begin", "inside-fn", "broken-body",
+     "unquote-list", "unquote-array", "unquote-deep", "unquote-in-fn", "unquote-in-mac", "unquote-splice",
+     "route-arg", "route-eval", "route-fn-arg", "route-lazy", "route-source", "route-source-parse",
+     "route-include", "route-include-parse", "route-array",
+     "then-hostmacro-panic", "then-hostmacro-error",
+     "apply-host-panic", "apply-host-error", "apply-script-panic", "apply-script-error"}
+    \cup Numbered("failing-", 9)
+MayFailV ==
+    {"malformed-" \o Two(i) : i \in 0..99}
+    \cup {"valueless-" \o ToString(i) \o "-" \o ToString(j) : i \in 0..9, j \in 0..19}
 
 VARIABLES ci, phase, obs, verdict
 tvars == <<ci, phase, obs, verdict>>
@@ -29,28 +75,36 @@ TInit == ci \in 1..Len(Cases) /\ phase = "new" /\ obs = <<>> /\ verdict = "run"
 
 Bad(why, n) == /\ verdict' = "bad" /\ UNCHANGED <<ci, phase, obs>>
                /\ PrintT(<<"VERDICT", C.id, "bad", why, n>>)
+Skip(why) == /\ verdict' = "skip" /\ UNCHANGED <<ci, phase, obs>>
+             /\ PrintT(<<"VERDICT", C.id, "skip", why>>)
 
 (* the set-up evaluation: the observable state is the twin's *)
 Setup == /\ verdict = "run" /\ phase = "new"
-         /\ phase' = "ready" /\ obs' = C.twin /\ UNCHANGED <<ci, verdict>>
+         /\ IF C.ut # UsableAnswer THEN Skip("twin-unusable")
+            ELSE phase' = "ready" /\ obs' = C.twin /\ UNCHANGED <<ci, verdict>>
 
-(* the rejected text: an error, at rest, and a stuttering step on obs *)
+(* the rejected text: an error that is returned, at rest, and a stuttering step on obs *)
 Rejected ==
     /\ verdict = "run" /\ phase = "ready"
-    /\ IF C.fout[1] # "err" THEN Bad("error-swallowed", 0)
+    /\ IF C.variant \notin (MustFailV \cup MayFailV) THEN Bad("unknown-variant", 0)
+       ELSE IF C.fout[1] = "panic" THEN Bad("panic-escaped", 0)
+       ELSE IF C.fout[1] = "budget" THEN Skip("budget")
+       ELSE IF C.fout[1] # "err" /\ C.variant \in MayFailV THEN Skip("accepted")
+       ELSE IF C.fout[1] # "err" THEN Bad("error-swallowed", 0)
        ELSE IF C.depths # Rest THEN Bad("not-at-rest", 0)
        ELSE phase' = "rejected" /\ UNCHANGED <<ci, obs, verdict>>
 
-(* the probes after the rejected text answer as obs says *)
+(* the probes after the rejected text answer as obs says, and the interpreter is usable *)
 FirstDiff(a, b) == IF Len(a) # Len(b) THEN 0
                    ELSE IF \E i \in 1..Len(a) : a[i] # b[i] THEN CHOOSE i \in 1..Len(a) : a[i] # b[i] /\ \A j \in 1..(i-1) : a[j] = b[j]
                    ELSE -1
 Probe ==
     /\ verdict = "run" /\ phase = "rejected"
     /\ LET d == FirstDiff(C.a, obs) IN
-       IF d = -1 THEN /\ verdict' = "ok" /\ UNCHANGED <<ci, phase, obs>>
-                      /\ PrintT(<<"VERDICT", C.id, "ok", 0>>)
-       ELSE Bad("state-changed", d)
+       IF d # -1 /\ ~(C.variant \in MayFailV /\ C.a = C.twin2) THEN Bad("state-changed", d)
+       ELSE IF C.ua # UsableAnswer THEN Bad("unusable", 0)
+       ELSE /\ verdict' = "ok" /\ UNCHANGED <<ci, phase, obs>>
+            /\ PrintT(<<"VERDICT", C.id, "ok", 0>>)
 
 TNext == Setup \/ Rejected \/ Probe
 TSpec == TInit /\ [][TNext]_tvars
